@@ -1507,9 +1507,11 @@ impl Add<Time> for DateTime {
 
     fn add(self, rhs: Time) -> Self::Output {
         let nanos = self.as_nanos() + rhs.as_nanos() as i128;
+        let (days, nanoseconds) = nanos_to_days_nanos(nanos)
+            .unwrap_or_else(|_| panic!("Operation would result into an out of range datetime"));
         Self {
-            days: (nanos / NANOS_PER_DAY as i128) as i32,
-            nanoseconds: (nanos % NANOS_PER_DAY as i128) as u64,
+            days,
+            nanoseconds,
             offset: self.offset,
         }
     }
@@ -1525,9 +1527,11 @@ impl Sub<Time> for DateTime {
 
     fn sub(self, rhs: Time) -> Self::Output {
         let nanos = self.as_nanos() - rhs.as_nanos() as i128;
+        let (days, nanoseconds) = nanos_to_days_nanos(nanos)
+            .unwrap_or_else(|_| panic!("Operation would result into an out of range datetime"));
         Self {
-            days: (nanos / NANOS_PER_DAY as i128) as i32,
-            nanoseconds: (nanos % NANOS_PER_DAY as i128) as u64,
+            days,
+            nanoseconds,
             offset: self.offset,
         }
     }
@@ -1543,9 +1547,11 @@ impl Add<Duration> for DateTime {
 
     fn add(self, rhs: Duration) -> Self::Output {
         let nanos = self.as_nanos() + rhs.as_nanos() as i128;
+        let (days, nanoseconds) = nanos_to_days_nanos(nanos)
+            .unwrap_or_else(|_| panic!("Operation would result into an out of range datetime"));
         Self {
-            days: (nanos / NANOS_PER_DAY as i128) as i32,
-            nanoseconds: (nanos % NANOS_PER_DAY as i128) as u64,
+            days,
+            nanoseconds,
             offset: self.offset,
         }
     }
@@ -1561,9 +1567,11 @@ impl Sub<Duration> for DateTime {
 
     fn sub(self, rhs: Duration) -> Self::Output {
         let nanos = self.as_nanos() - rhs.as_nanos() as i128;
+        let (days, nanoseconds) = nanos_to_days_nanos(nanos)
+            .unwrap_or_else(|_| panic!("Operation would result into an out of range datetime"));
         Self {
-            days: (nanos / NANOS_PER_DAY as i128) as i32,
-            nanoseconds: (nanos % NANOS_PER_DAY as i128) as u64,
+            days,
+            nanoseconds,
             offset: self.offset,
         }
     }
